@@ -5,6 +5,7 @@
 -/
 import Proofs.C12Lemmas
 import Proofs.C12Guillot
+import Proofs.C12Section
 
 namespace Taurex.C12
 open Taurex.NpInterp Taurex.Temperature
@@ -238,5 +239,96 @@ example : (0:ℝ) < 1/100 ∧ (0:ℝ) < 5/1000 ∧ (0:ℝ) ≤ 1500 ∧ (0:ℝ) 
 /-- non-vacuity of the `E2` hypothesis: the upper bound itself is an admissible `E2` -/
 example : ∀ x : ℝ, 0 ≤ x → 0 ≤ Real.exp (-x) / (1 + x) ∧ Real.exp (-x) / (1 + x) ≤ Real.exp (-x) / (1 + x) :=
   fun x hx => ⟨div_nonneg (Real.exp_pos _).le (by linarith), le_refl _⟩
+
+
+/-! ### the input-file route: `create_temperature_profile(section)` (taurex/parameter/factory.py)
+
+A profile built from a `[Temperature]` section is the class's constructor applied to the section's values over the
+constructor's defaults (`Section.resolve`).  The rule never inspects a value (`ν` is arbitrary): an explicit `0`, `0.0`,
+`[]` or `False` is a value like any other; and the object built from a section does not depend on what was built before it
+in the same session.  The closed forms, bounds and rejections above then apply to the resolved parameters. -/
+section SectionRoute
+open Taurex.Section
+
+/-- **section_given**: a keyword the section gives reaches the constructor with the section's value — whatever the value
+    is (zero, an empty list, `False`: `ν` is arbitrary). -/
+theorem section_given {κ ν : Type} [BEq κ] [LawfulBEq κ] (defaults sec r : List (κ × ν))
+    (h : resolve defaults sec = some r) (k : κ) (v : ν) (hk : known defaults k = true)
+    (hv : sec.lookup k = some v) : r.lookup k = some v := by
+  unfold resolve at h
+  split at h
+  · cases h
+    rw [resolve_lookup, hv]
+    unfold known at hk
+    cases hd : defaults.lookup k with
+    | none => rw [hd] at hk; simp at hk
+    | some d => simp
+  · cases h
+
+-- an explicit zero (default 1) is what the constructor gets
+example : ([("alpha", (0 : Nat)), ("T_int", 100)] : List (String × Nat)).lookup "alpha" = some 0 :=
+  section_given [("alpha", 1), ("T_int", 100)] [("alpha", 0)] _ (by decide) "alpha" 0 (by decide) (by decide)
+
+/-- **section_default**: a keyword the section omits reaches the constructor with the constructor's own default. -/
+theorem section_default {κ ν : Type} [BEq κ] [LawfulBEq κ] (defaults sec r : List (κ × ν))
+    (h : resolve defaults sec = some r) (k : κ) (d : ν) (hd : defaults.lookup k = some d)
+    (hv : sec.lookup k = none) : r.lookup k = some d := by
+  unfold resolve at h
+  split at h
+  · cases h
+    rw [resolve_lookup, hv, hd]
+    rfl
+  · cases h
+
+example : ([("alpha", (0 : Nat)), ("T_int", 100)] : List (String × Nat)).lookup "T_int" = some 100 :=
+  section_default [("alpha", 1), ("T_int", 100)] [("alpha", 0)] _ (by decide) "T_int" 100 (by decide) (by decide)
+
+/-- **section_keys**: the constructor gets each of its keywords exactly once, in its own order. -/
+theorem section_keys {κ ν : Type} [BEq κ] (defaults sec r : List (κ × ν))
+    (h : resolve defaults sec = some r) : r.map Prod.fst = defaults.map Prod.fst := by
+  unfold resolve at h
+  split at h
+  · cases h
+    simp [List.map_map, Function.comp_def]
+  · cases h
+
+example : ([("alpha", (0 : Nat)), ("T_int", 100)] : List (String × Nat)).map Prod.fst = ["alpha", "T_int"] :=
+  section_keys [("alpha", 1), ("T_int", 100)] [("alpha", 0)] _ (by decide)
+
+/-- **section_history**: what is built from a section does not depend on the sections built before it in the session. -/
+theorem section_history {κ ν : Type} [BEq κ] (defaults : List (κ × ν)) (before : List (List (κ × ν)))
+    (sec : List (κ × ν)) :
+    (session defaults (before ++ [sec]))[before.length]? = some (resolve defaults sec) := by
+  simp [session]
+
+-- the second object of a session that first built one with alpha = 0, T_int = 7 and then one from a section giving only T_int
+example : (session [("alpha", (1 : Nat)), ("T_int", 100)] ([[("alpha", 0), ("T_int", 7)]] ++ [[("T_int", 9)]]))[1]? =
+    some (some [("alpha", 1), ("T_int", 9)]) := by
+  rw [show (1 : Nat) = [[("alpha", (0 : Nat)), ("T_int", 7)]].length from rfl, section_history]
+  decide
+
+example : resolve [("alpha", (1 : Nat)), ("T_int", 100)] [("alpha", 0)] = some [("alpha", 0), ("T_int", 100)] := by
+  decide
+
+/-- a zero opacity given explicitly in a Guillot section reaches the constructor as zero, hence the profile is rejected as
+    an invalid model (it is not replaced by the non-zero default) -/
+theorem section_guillot_zero_rejected (defaults sec r : List (String × ℝ)) (h : resolve defaults sec = some r)
+    (k : String) (hk : k = "kappa_irr" ∨ k = "kappa_v1" ∨ k = "kappa_v2") (hkn : known defaults k = true)
+    (hz : sec.lookup k = some 0) (q : GuillotParams ℝ)
+    (hq : r.lookup "kappa_irr" = some q.kappaIr ∧ r.lookup "kappa_v1" = some q.kappaV1 ∧
+      r.lookup "kappa_v2" = some q.kappaV2) (g : ℝ) (pressure e21 e22 : List ℝ) :
+    guillot q g pressure e21 e22 = .invalid := by
+  have h0 := section_given defaults sec r h k 0 hkn hz
+  refine (guillot_rejects q g pressure e21 e22).1.2 ?_
+  rcases hk with rfl | rfl | rfl
+  · rw [hq.1] at h0; exact Or.inl (Option.some.inj h0)
+  · rw [hq.2.1] at h0; exact Or.inr (Or.inl (Option.some.inj h0))
+  · rw [hq.2.2] at h0; exact Or.inr (Or.inr (Or.inl (Option.some.inj h0)))
+
+example : resolve [("kappa_irr", (1 / 100 : ℝ)), ("kappa_v1", 5 / 1000), ("kappa_v2", 5 / 1000)] [("kappa_v1", 0)] =
+    some [("kappa_irr", 1 / 100), ("kappa_v1", 0), ("kappa_v2", 5 / 1000)] := by
+  simp [resolve, known, List.lookup]
+
+end SectionRoute
 
 end Taurex.C12
